@@ -11,7 +11,8 @@ DATA = [0, 1, 5, 7, 13, 255, 0x7FFFFFFF, 0x80000000, 0xFFFFFFFF, 0x100000001]
 class C19(Prop):
     id = "C19"
     title = "Cross-thread notifications are never lost or merged; shutdown terminates"
-    lean_modules = ["NV.C19.Props", "NV.C19.PropsExt", "NV.C19.BlockedCounters", "NV.C19.Global", "NV.C19.Witness",
+    lean_modules = ["NV.C19.Props", "NV.C19.PropsExt", "NV.C19.BlockedCounters", "NV.C19.LocksProps", "NV.C19.Global",
+                    "NV.C19.Witness",
                     "NV.C19.WitnessPoll", "NV.C19.Negative"]
     theorems = ["NV.C19.model_satisfies_spec", "NV.C19.posts_delivered_exactly_once", "NV.C19.posts_multiset_preserved",
                 "NV.C19.post_refused_only_when_full", "NV.C19.no_lost_wakeup",
@@ -28,6 +29,10 @@ class C19(Prop):
                 # ... and the theorems over all schedules
                 "NV.C19.bell_value_irrelevant", "NV.C19.blocked_writers_fifo_exactly_once",
                 "NV.C19.blocked_writers_counters",
+                # lock discipline on every path of the function bodies regenerated from the clang AST
+                "NV.C19.locked_functions_accepted", "NV.C19.lock_discipline_all_paths",
+                "NV.C19.locked_functions_nontrivial", "NV.C19.chk_sound", "NV.C19.okBody_sound",
+                "NV.C19.mutex_excludes_accesses",
                 "NV.C19.no_writer_left_asleep", "NV.C19.waiting_writer_wakes", "NV.C19.woken_writer_pushes",
                 "NV.C19.drained_queue_releases_a_writer", "NV.C19.drop_oldest_never_blocks",
                 "NV.C19.console_worker_exits_after_stop", "NV.C19.console_worker_hangs_on_block_writer_queue",
@@ -185,6 +190,8 @@ class C19(Prop):
             raise X.TieBroken("const:async_worker_join", "poll sleep / elapsed step of the timed join not recognised")
         b = lambda v: "true" if v else "false"
         more = self._gen_round5(body_of, pos, b)
+        from props import c19_extract
+        more.append(c19_extract.gen_locks(bdir))
         return "\n".join(more + [
             "/-- C: in `async_runtime_wait` the doorbell `read(event_fd)` stands before `pthread_mutex_lock(&ring_lock)` -/",
             "def waitReadsBellBeforeLock : Bool := " + b(rd < lk),
